@@ -182,6 +182,10 @@ func scenarios(tier string) (two, three []*engine.Scenario) {
 				// quick: of the pairs of two long programs only the mixed stream/packet one (the others are thorough-only)
 				continue
 			}
+			if tier != "thorough" && len(mn[i]) > 3 && mn[i] != "ssc c" && (mn[j] == "xsc" || mn[j] == "ypc") {
+				// quick: the failing-listen programs are paired with the short programs and with "ssc c" only
+				continue
+			}
 			two = append(two, scenario([]program{mn[i], mn[j]}))
 		}
 	}
